@@ -1419,7 +1419,8 @@ op_check(Priority, OpSpec, Op) :-
        )
     ;  true
     ),
-    (  lists:member(OpSpec, [xfx, xfy, yfx]),
+    (  Priority =:= 0 -> true % removing an operator cannot create a clash
+    ;  lists:member(OpSpec, [xfx, xfy, yfx]),
        current_op(_, PostSpec, Op), lists:member(PostSpec, [xf, yf]) ->
        throw(error(permission_error(create, operator, Op), op/3))
     ;  lists:member(OpSpec, [xf, yf]),
